@@ -29,6 +29,9 @@ structure Epoch where
   nsamp : Int
   fromT : Bool           -- started by ConfigureTriggers (hold-off reference := frame 0)
   inherit : Bool         -- started by ConfigurePulseLengths: LastTrigger is kept
+  back : Nat := 0        -- ConfigureTriggers: the tail of the previous epoch that could not be searched yet
+                         -- (its last nsamp−npre samples) is searched again with the new settings, as far as
+                         -- the history they need was retained; `back` = how far before `start` that reaches
 deriving Repr
 
 structure ChanTruth where
@@ -36,6 +39,7 @@ structure ChanTruth where
   signed : Bool := false
   epochs : List Epoch            -- newest first
   trigs : List (Nat × Nat) := [] -- (position, index of the epoch it was emitted in), oldest first
+  ret : Nat := 0                 -- samples retained between blocks (rule: at most 2·nsamp+10, `NToKeepOnTrim`)
 deriving Repr
 
 structure St where
@@ -81,7 +85,7 @@ def evalChan (ch : Nat) (c : ChanTruth) (f0 : Int) (strictFrame0 : Bool) : Optio
       let covered (p : Nat) : Bool := hold.any fun t => t < p ∧ (p : Int) ≤ t + ep.nsamp
       let near (p : Nat) : Bool := hold.any fun t => (t : Int) - ep.nsamp ≤ p ∧ (p : Int) ≤ t + ep.nsamp
       let eligible (p : Nat) : Bool :=
-        (ep.start : Int) + ep.npre ≤ p ∧ (p : Int) + post < eI ∧
+        (ep.start : Int) - ep.back + ep.npre ≤ p ∧ (p : Int) + post < eI ∧
         (strictFrame0 || !ep.fromT || f0 + p ≥ ep.nsamp)
       -- (a) soundness of every trigger emitted in this epoch
       let unsound := mine.find? fun p =>
@@ -89,7 +93,7 @@ def evalChan (ch : Nat) (c : ChanTruth) (f0 : Int) (strictFrame0 : Bool) : Optio
       match unsound with
       | some p => some s!"unsound ch{ch} epoch {k}: trigger at stream position {p} (frame {f0 + p}) satisfies no enabled criterion"
       | none =>
-      let positions := (List.range (e' - ep.start)).map (· + ep.start)
+      let positions := (List.range (e' - (ep.start - ep.back))).map (· + (ep.start - ep.back))
       -- (b) edge completeness
       let missE := positions.find? fun p => edgeAt ep.ts c.signed c.g p && eligible p && !(mine.contains p) && !covered p
       match missE with
@@ -146,12 +150,19 @@ def walk (st : St) : List Op → List Out → St
         let newT := (rs[ch]?.getD []).filterMap fun r =>
           let p := r.frame - f0
           if p < 0 then none else some (p.toNat, ek)
-        { c with g := c.g ++ d.toArray, signed := signed[ch]?.getD false, trigs := c.trigs ++ newT }
+        let keep : Nat := (2 * st.nsamp + 10).toNat
+        let ret := if c.ret + d.length > keep then keep else c.ret + d.length
+        { c with g := c.g ++ d.toArray, signed := signed[ch]?.getD false, trigs := c.trigs ++ newT, ret := ret }
       walk { st with chans, f0 := some f0 } ops outs
     | .trig r, .err false =>
       let chans := st.chans.zipIdx.map fun (c, ch) =>
         if r.chans.contains (ch : Int) then
-          { c with epochs := { start := c.g.size, ts := r.ts, npre := st.npre, nsamp := st.nsamp, fromT := true, inherit := false } :: c.epochs }
+          -- the not-yet-searched tail of the stream so far: its last nsamp−npre samples; they are found
+          -- with the new settings when their npre samples of history are still in the retained buffer
+          let post : Nat := (st.nsamp - st.npre).toNat
+          let back : Nat := if post + st.npre.toNat ≤ c.ret then post else 0
+          { c with epochs := { start := c.g.size, ts := r.ts, npre := st.npre, nsamp := st.nsamp, fromT := true, inherit := false,
+                               back := back } :: c.epochs }
         else c
       walk { st with chans } ops outs
     | .len ns np, .err false =>
